@@ -31,6 +31,17 @@ def run(rep, tier, seed):
                     continue
                 exp = ref_decompress(s, nr)
                 case_decompress(b, s, rule, None, klass='decompress:' + stack + (':compute' if has_comp else ''), expect=exp, side=rnd.choice([L, R]))
+        if i % 3 == 0:
+            # a direction is given and the rule carries descriptors of the other direction, also in front of computed fields
+            from p_c18 import dir_rule, KINDS_C
+            from microschc.rfc8724 import DirectionIndicator as _DI2
+            d_ = rnd.choice([_DI2.UP, _DI2.DOWN])
+            pd.direction = d_
+            rule, _ = dir_rule(rnd, pd, d_, kinds=KINDS_C if stack in ('IPv6-UDP-CoAP', 'IPv4-UDP-CoAP', 'SCTP', 'IPv6', 'IPv4') else KINDS_C[:6])
+            dc = 'U' if d_ == _DI2.UP else 'D'
+            s = ref_compress(dict(n_pdesc(pd), dir=dc), n_rule(rule), dc)
+            if s is not None:
+                case_decompress(b, s, rule, d_, klass='decompress:direction-alternatives:' + stack, expect=bits_of(pd.raw), side=rnd.choice([L, R]))
         r0 = no_compression_rule(randbits(rnd, rnd.randint(1, 16)))
         s = bits_of(r0.id) + bits_of(pd.raw)
         case_decompress(b, s, r0, None, klass='decompress:no-compression', expect=bits_of(pd.raw), side=rnd.choice([L, R]))
